@@ -5,8 +5,8 @@ From Rimu Require Import Base Unicode Regex RegexAnalysis RegexParse Str Types T
 From Coq Require Import Lia.
 Local Open Scope monad_scope.
 
-Definition defaults (s : session) : Prop :=
-  s_repls s = replacements_default /\ s_quotes s = quotes_default.
+Definition defaults (s : ienv) : Prop :=
+  en_repls s = replacements_default /\ en_quotes s = quotes_default.
 
 Definition span_regexes : list cre :=
   map r_re replacements_default ++
@@ -32,7 +32,7 @@ Lemma no_match r t : In r span_regexes -> plain_text t -> re_search r t = None.
 Proof. intros Hr Ht. apply (re_search_none_over plain_alphabet); auto using no_match_spec. Qed.
 
 Section Plain.
-Variable s : session.
+Variable s : ienv.
 Variable sr : str -> I str.
 
 Lemma fragReplacement_plain n d t :
